@@ -52,8 +52,9 @@ ASSUMPTIONS = [
     "within 1e-5 (relative) of the threshold may go either way; samples are "
     "0 or >= 2^-6 in magnitude for that mode (no float32 underflow in the "
     "variance)",
-    "adaptive neighbourhoods: requested size m with 2m <= N-1 (the docstring "
-    "promises mean degree 2m)",
+    "adaptive neighbourhoods: requested size m with m <= N-1 (where 'at "
+    "least m neighbours' is satisfiable; the documented mean degree 2m "
+    "additionally presupposes 2m <= N-1 and is not asserted)",
     "twins / twin_surrogates belong to C15 and are not called here",
 ]
 
@@ -746,8 +747,12 @@ def rp_cases(draw):
     elif mode in ("recurrence_rate", "local_recurrence_rate"):
         param = draw(st.sampled_from(RATES))
     else:
-        # documented outcome "mean degree 2m" presupposes 2m <= N-1
-        param = draw(st.integers(1, max(1, min(6, (nv - 1) // 2))))
+        # "at least m neighbours" is satisfiable for every m <= N-1 (the
+        # documented mean degree 2m additionally presupposes 2m <= N-1);
+        # large m relative to N are drawn in half of the cases
+        param = draw(st.one_of(
+            st.integers(1, max(1, min(6, (nv - 1) // 2))),
+            st.integers(1, max(1, nv - 1))))
     return {"series": series, "dim": dim, "tau": tau, "metric": metric,
             "mode": mode, "param": param, "param2": param2, "mv": mv,
             "lmin": draw(st.integers(1, 4)),
